@@ -14,7 +14,7 @@ DEFAULT_MACROS = [("log", "info"), ("log", "warn"), ("log", "error")]
 
 _KV_SHAPES = ["ident", "field", "uint", "float", "bool", "str", "str_semi", "str_comma", "str_escq", "str_eq",
               "mod_q", "mod_debug", "mod_pct", "mod_display", "mod_err", "mod_sval", "mod_serde",
-              "short", "short_q", "short_pct", "char_eq", "char_escq", "char_nl"]
+              "short", "short_q", "short_pct", "char_eq", "char_escq", "char_nl", "str_after_op", "str_in_call"]
 FEATURES = {
     "path": ["bare", "qual"],
     "macro": [0, 1, 2, 3, 4],          # index into the configured macro set (modulo its length)
@@ -69,6 +69,9 @@ def kv_text(shape, key, rnd):
         "char_eq": "%s = %s == '%s'" % (key, rnd.choice(["c", "ch"]), rnd.choice(["x", "=", "\"", "é", "/"])),
         "char_escq": "%s = %s != '\\''" % (key, rnd.choice(["c", "ch"])),
         "char_nl": "%s = %s == '\\n'" % (key, rnd.choice(["c", "ch"])),
+        # a string literal that is not the first token of the value, directly followed by the separator
+        "str_after_op": '%s = %s == "%s"' % (key, rnd.choice(IDENTS[:4]), rnd.choice(["s", "a,b", "x;y", ""])),
+        "str_in_call": '%s = %s.get("%s")' % (key, rnd.choice(IDENTS[:4]), rnd.choice(["key", "a b"])),
         "short": "%s" % key,
         "short_q": "%s:?" % key,
         "short_pct": "%s:%%" % key,
